@@ -148,7 +148,7 @@ def gen_config(r: random.Random, profile: str = "valid") -> Dict[str, Any]:
         if mode == "count":
             eff["numMarkets"] = r.choice([1, 2, 3, 5]) if r.random() < 0.97 else r.choice([17, 40, 70])
         elif mode == "range":
-            lo = r.choice([0, 0, 1, 3, 10])
+            lo = r.choice([0, 0, 1, 3, 10, -2, -6, -1])
             eff["from"] = lo
             eff["to"] = lo + r.choice([0, 1, 2, 4])
         if r.random() < 0.35:
@@ -174,7 +174,7 @@ def gen_config(r: random.Random, profile: str = "valid") -> Dict[str, Any]:
         if mode == "count":
             eff["numAgents"] = r.choice([0, 1, 2, 3, 6]) if not big else r.choice([257, 300, 520, 1100])
         elif mode == "range":
-            lo = r.choice([0, 0, 2, 5])
+            lo = r.choice([0, 0, 2, 5, -3, -1, -10])
             eff["from"] = lo
             eff["to"] = lo + (r.choice([0, 1, 2, 3]) if not big else r.choice([256, 299, 700]))
         if r.random() < 0.35:
